@@ -63,6 +63,16 @@ def normalise(rng, desc):
             args = e["arguments"]
             e["arguments"] = args[:-2] + [x for hd in hdirs for x in ("-I", hd or ".")] + args[-2:]
     d["hdirs"] = hdirs
+    # exclude patterns (the same for both variants): a vendored directory that no command or include refers to, and
+    # sometimes a name pattern that matches alias names only.  Membership is decided on the resolved path, so a link
+    # with an innocent name to an excluded file is not a member, and a link with an excluded name to a member is one.
+    d["excludes"] = []
+    if rng.random() < 0.5:
+        d["texts"]["vendored/vend.h"] = ["int vend_a;", "int vend_b;", "#ifdef A", "int vend_c;", "#endif"]
+        d["texts"]["vendored/deep/vend2.c"] = ["int vend2;"]
+        d["excludes"].append(rng.choice(["vendored/", "vendored", "/vendored/", "vend*"]))
+        if rng.random() < 0.5:
+            d["excludes"].append("alias0_*")
     return d
 
 
@@ -89,6 +99,11 @@ def decorate(rng, d):
         nm = os.path.join(where, f"dlx{i}")
         if not (dd + "/").startswith(nm + "/"):
             links.append((nm, dd))
+    if a.get("excludes"):
+        where = rng.choice([x for x in real_dirs if not x.startswith("vendored")] or [""])
+        links.append((os.path.join(where, "innocent.h"), "vendored/vend.h"))      # innocent name, excluded target
+        if rng.random() < 0.5:
+            links.append((os.path.join(where, "innocent_dir"), "vendored/deep"))  # directory link into the excluded directory
     if a["outside"] is not None:
         links.append(("ext_link.h", "../outside/ext.h"))       # link to a file outside the code base
         links.append(("dl_out", "../outside"))                 # link to a directory outside the code base
@@ -196,7 +211,7 @@ def write_variant(base, d):
 # --------------------------------------------------------------------------
 # observation of the real analysis
 # --------------------------------------------------------------------------
-def observe(root, platforms, want_cov=False):
+def observe(root, platforms, want_cov=False, excludes=()):
     """Run finder.find + reports on the code base at root. Returns a dict of observations."""
     from codebasin import finder, report
     from codebasin.finder import ParserState
@@ -210,7 +225,7 @@ def observe(root, platforms, want_cov=False):
 
     ParserState.insert_file = rec_insert
     try:
-        cb, st = cbgen.analyse(root, platforms)
+        cb, st = cbgen.analyse(root, platforms, excludes=excludes)
     finally:
         ParserState.insert_file = orig_insert
     members = list(cb)
@@ -266,17 +281,21 @@ def check_case(ctx, drv, scr, idx, canon, alias, origin, want_cov=False):
         rootC, rootA = write_variant(baseC, canon), write_variant(baseA, alias)
         plats = list(canon["platforms"])
         try:
-            oc = observe(rootC, plats)
+            oc = observe(rootC, plats, excludes=canon.get("excludes", ()))
         except Exception as e:  # noqa
             ctx.notes.append(f"canonical variant not analysable ({type(e).__name__}: {e}) — case dropped")
             return out
         try:
-            oa = observe(rootA, plats)
+            oa = observe(rootA, plats, excludes=alias.get("excludes", ()))
         except Exception as e:  # noqa
             ctx.violation(f"the aliased variant aborts with {type(e).__name__}: {e} although the canonical one is analysed", case)
             return out
         nlinks = len(alias["links"])
         ctx.count(key=f"links={min(nlinks, 5)}")
+        if canon.get("excludes"):
+            ctx.count(key="with_exclude_patterns")
+            if any(p.startswith("vendored/") for p in oc["phys"]):
+                ctx.notes.append(f"exclude patterns {canon['excludes']} did not exclude the vendored directory")
         aliased_refs = sum(1 for p in alias["platforms"] for e, e0 in zip(alias["platforms"][p], canon["platforms"][p]) if e["file"] != e0["file"])
         ctx.dist["commands_through_alias"] += aliased_refs
         if nlinks and (aliased_refs or any(a_ != c_ for f in canon["texts"] for a_, c_ in zip(alias["texts"][f], canon["texts"][f]))):
@@ -349,8 +368,17 @@ def check_case(ctx, drv, scr, idx, canon, alias, origin, want_cov=False):
         # model: parse-cache keys and counted files
         if drv is not None:
             entries = fstree.scan(baseA)
+            ign = []
+            if alias.get("excludes"):
+                # the model takes pathspec's verdict per root-relative resolved path as a table (C09 checks that table against git)
+                for dp, dns, fns in os.walk(rootA):
+                    for nm in fns + dns:
+                        rel = os.path.relpath(os.path.join(dp, nm), rootA)
+                        v = fstree.pathspec_ignored(list(alias["excludes"]), rel)
+                        if v is True:
+                            ign.append(rel)
             rep = drv.ask({"op": "codebase", "fs": fstree.fs_description(baseA, entries), "cwd": rootA, "roots": [rootA],
-                           "ignored": [], "catchLoop": False, "fuel": FUEL, "queries": [], "inserts": oa["inserted"]})
+                           "ignored": ign, "catchLoop": False, "fuel": FUEL, "queries": [], "inserts": oa["inserted"]})
             if sorted(rep.get("cache", [])) != oa["trees"]:
                 ctx.corr_break("codebase.cache", case, oa["trees"], rep.get("cache"))
             if rep.get("counted") == "loop" or sorted(rep.get("counted", [])) != sorted(oa["visited"]):
